@@ -13,10 +13,10 @@ SEL = ('filter', 'select', 'extra')
 PROPS = {
     'C01': P('payment-token ledger: invariant of exec + claims in any order; correspondence on balances of every call',
              eps=('claim', 'claimPayment', 'confirm', 'blacklist', 'refund', 'confirmNft', 'setPrice'), cats=('bal', 'status'),
-             coq=('Proofs/Ledger.v',)),
+             coq=('Proofs/Ledger.v', 'Proofs/ClaimLedger.v', 'Proofs/Partition.v')),
     'C02': P('launchpad-token ledger: deposit acceptance iff tpt x (W+R), cover, surplus',
              eps=('deposit', 'claim', 'claimPayment', 'setTpt'), cats=('bal', 'status', 'locks'), views=('deposited', 'tpt', 'nrWinning'),
-             coq=('Proofs/Ledger.v', 'Proofs/Reserve.v')),
+             coq=('Proofs/Ledger.v', 'Proofs/Reserve.v', 'Proofs/ClaimLedger.v')),
     'C03': P('number and identity of winners after base selection and after the additional step',
              eps=('select', 'extra'), cats=('ret', 'status'), views=('nrWinning', 'winIds', 'totalTickets'),
              coq=('Proofs/Shuffle.v', 'Proofs/Select.v', 'Proofs/GuaranteedLoop.v', 'Proofs/Leftover.v')),
@@ -31,7 +31,7 @@ PROPS = {
              eps=('confirm',), cats=('status', 'bal', 'events'), views=('confirmed',), coq=('Proofs/Confirm.v',)),
     'C08': P('filter refines compaction of the allocation list; partition of 1..total; winners cap',
              eps=('filter',), cats=('status', 'ret'), views=('range', 'totalFor', 'totalTickets', 'nrWinning'),
-             coq=('Proofs/Filter.v',)),
+             coq=('Proofs/Filter.v', 'Proofs/Partition.v')),
     'C09': P('settlement exactly once, for what the views reported', eps=('claim',), cats=('status', 'bal'),
              views=('claimed', 'range', 'confirmed', 'winIds', 'totalClaimable'), coq=('Proofs/Claim.v',)),
     'C10': P('blacklist refunds in full and excludes; un-blacklist restores and frames',
